@@ -185,7 +185,7 @@ func Date() []Call {
 // ---------------------------------------------------------------- roman
 func Roman() []Call {
 	var cs []Call
-	for _, n := range []roman.Number{0, 4, 14, 499, 999, 1999, 2014, 3888, 4000} {
+	for _, n := range []roman.Number{0, 4, 14, 499, 999, 1999, 2014, 3888, 4000, 36004, 120014} {
 		n := n
 		for _, f := range []roman.Format{0, roman.FormatLowerCase, roman.FormatLong4 | roman.FormatLong9, 63, 127} {
 			f := f
